@@ -412,6 +412,33 @@ func init() {
 		ex.oblige(fr, st, "nil", "ecdh-remote-key-present", not(eq(c.args[1].L[0], "0")), c.pos, "(*ecdh.PrivateKey).ECDH with a nil remote key panics: "+ex.srcLine(c.pos))
 		return ex.externalCall(fr, st, c.fn, c.args, c.argVals, c.pos)
 	}
+	// ---- crypto/ecdh (X25519 key exchange): keys are opaque objects; a constructor returns a key exactly when it
+	// returns no error; nothing is written to memory the caller can see
+	s["crypto/ecdh.X25519"] = func(ex *Exec, fr *Frame, st *State, c *callCtx) Val {
+		tag := fmt.Sprint(ex.typeTag("T:*ecdh.x25519Curve"))
+		return Val{T: c.results().At(0).Type(), L: []string{tag, ex.newRef(st, "curve")}}
+	}
+	ecdhKey := func(name string) specFn {
+		return func(ex *Exec, fr *Frame, st *State, c *callCtx) Val {
+			okv := ex.fresh(name+".ok", sBool)
+			ref := ex.newRef(st, name)
+			e := ex.freshErr(st, name)
+			return tup(Val{T: c.results().At(0).Type(), L: []string{ite(okv, ref, "0")}},
+				Val{T: errType(), L: []string{ite(okv, "0", e.L[0]), ite(okv, "0", e.L[1])}})
+		}
+	}
+	s["crypto/ecdh.Curve.GenerateKey"] = ecdhKey("kxprivate")
+	s["crypto/ecdh.Curve.NewPublicKey"] = ecdhKey("kxpublic")
+	s["(*crypto/ecdh.PrivateKey).PublicKey"] = func(ex *Exec, fr *Frame, st *State, c *callCtx) Val {
+		ex.oblige(fr, st, "nil", "ecdh-private-key-present", not(eq(c.args[0].L[0], "0")), c.pos, "(*ecdh.PrivateKey).PublicKey on a nil key panics: "+ex.srcLine(c.pos))
+		return Val{T: c.results().At(0).Type(), L: []string{ex.newRef(st, "kxpub")}}
+	}
+	s["(*crypto/ecdh.PublicKey).Bytes"] = func(ex *Exec, fr *Frame, st *State, c *callCtx) Val {
+		ex.oblige(fr, st, "nil", "ecdh-public-key-present", not(eq(c.args[0].L[0], "0")), c.pos, "(*ecdh.PublicKey).Bytes on a nil key panics: "+ex.srcLine(c.pos))
+		base := ex.newRef(st, "kxbytes")
+		ex.havocMemBase(st, types.Typ[types.Uint8], base)
+		return Val{T: c.results().At(0).Type(), L: []string{base, bvLit(0, 64), bvLit(32, 64), bvLit(32, 64)}}
+	}
 	s["crypto/ed25519.Verify"] = func(ex *Exec, fr *Frame, st *State, c *callCtx) Val {
 		ex.oblige(fr, st, "pre", "ed25519-pubkey-size", eq(c.args[0].L[2], bvLit(32, 64)), c.pos, "ed25519.Verify panics unless len(pub)==32: "+ex.srcLine(c.pos))
 		ex.cryptoEvent(fr, st, "ed25519.Verify", c)
